@@ -306,6 +306,46 @@ def connect (aenter : Outcome) (subs : List Outcome) : Except MqttExn TaskState 
     | .error e => .error e
     | .ok _ => .ok .waiting
 
+/-! ### `MQTTTransport.connect` over the four documented hooks
+
+The hooks are an extension point: what an implementation of `_connect` / `_subscribe` / `_disconnect`
+raises is not limited to the library's errors (a time-out, an `OSError` from the socket, an error type
+of the integration, a cancellation).  `Outcome` ranges over every Python exception class of the
+vocabulary, so the definitions below say what `connect()` does for each of them. -/
+
+/-- The exception `asyncio.gather(*calls)` propagates when the calls complete in the order they were
+started: the one raised first; `none` when every call returned. -/
+def firstRaised : List Outcome → Option PyExn
+  | [] => none
+  | .ok :: os => firstRaised os
+  | .raised c :: _ => some c
+
+/-- What one `MQTTTransport.connect()` call did. -/
+structure HookConnect where
+  /-- how the call ended for its caller -/
+  result : Outcome
+  /-- the topic filters subscribed on the connection the caller is left with: those whose `_subscribe`
+  call returned; none when there is no connection (any more) -/
+  inPlace : List Str
+  /-- `_disconnect` was awaited by `connect()` itself (the clean-up of a failed subscription) -/
+  cleanedUp : Bool
+  deriving DecidableEq, Repr
+
+/-- `MQTTTransport.connect`: `await self._connect()` (outcome `c`); one `_subscribe` call per generated
+filter (`sub f` is the outcome of the call for filter `f`), gathered; `except BaseException: await
+self._disconnect(); raise` (outcome `d` of the hook; an exception out of the clean-up replaces the one
+being handled). -/
+def hookConnect (inPrefix : Str) (c : Outcome) (sub : Str → Outcome) (d : Outcome) : HookConnect :=
+  match c with
+  | .raised e => ⟨.raised e, [], false⟩
+  | .ok =>
+    match firstRaised ((filters inPrefix).map sub) with
+    | none => ⟨.ok, (filters inPrefix).filter fun f => sub f == .ok, false⟩
+    | some e =>
+      ⟨match d with
+        | .ok => .raised e
+        | .raised e' => .raised e', [], true⟩
+
 /-- `MQTTTransport.write` with `MQTTClient._publish`: `pub` is the outcome of `client.publish`. -/
 def write (outPrefix line : Str) (pub : Outcome) : Except MqttExn (Str × Str × Int) :=
   match toTopic outPrefix line with
